@@ -25,6 +25,8 @@ pub(crate) struct PhoneticSuggestion {
     table: HashMap<&'static str, &'static [&'static str], RandomState>,
     // The user's auto-correct entries.
     pub(crate) user_autocorrect: HashMap<String, String, RandomState>,
+    // The preceding and trailing parts which were put around the current suggestions.
+    affixes: (String, String),
 }
 
 impl PhoneticSuggestion {
@@ -68,6 +70,7 @@ impl PhoneticSuggestion {
             regex_parser: Parser::new_regex(),
             table,
             user_autocorrect,
+            affixes: Default::default(),
         }
     }
 
@@ -158,6 +161,7 @@ impl PhoneticSuggestion {
         }
 
         self.suggestion_with_dict(&string, data);
+        self.affixes = (string.preceding().to_owned(), string.trailing().to_owned());
 
         // Emoji addition with corresponding emoticon (if ANSI mode is not enabled).
         if !config.get_ansi_encoding() {
@@ -196,6 +200,15 @@ impl PhoneticSuggestion {
         let selection = self.get_prev_selection(&string, data, selections);
 
         (self.suggestions.clone(), selection)
+    }
+
+    /// Returns the suggestion of the `index` without the preceding and trailing parts
+    /// which were put around it by the last `suggest()` call.
+    pub(crate) fn get_bare_suggestion(&self, index: usize) -> &str {
+        let item = self.suggestions[index].to_string();
+        item.strip_prefix(self.affixes.0.as_str())
+            .and_then(|s| s.strip_suffix(self.affixes.1.as_str()))
+            .unwrap_or(item)
     }
 
     /// Make suggestions from the given `splitted_string`. This will include dictionary and auto-correct suggestion.
